@@ -467,6 +467,35 @@ func genPrim(o *hx.Out, rng *hx.Rng, exh, nrand int, big bool) {
 		o.Put(runWrite(opStrings, fn, nil, sss))
 	}
 
+	// (c0) the implementation reads back what it wrote (records "wb", Python oracle): every boundary scalar, and byte payloads
+	// of 2^7, 2^14, 2^21 (+-1) bytes — the varintShortestSize thresholds seen through the length prefix
+	rt := func(op, fn int, vz, vb []string) {
+		w := runWrite(op, fn, vz, vb)
+		w.K = "wb"
+		w.BackOK = readBack(op, fn, w)
+		o.Put(w)
+	}
+	for _, v := range boundaryU {
+		rt(opUInt, 1, []string{cx.U(v)}, nil)
+		rt(opUInt32, 1, []string{cx.U(uint64(uint32(v)))}, nil)
+		rt(opUInts, 1, []string{cx.U(v), cx.U(v)}, nil)
+	}
+	for _, v := range boundaryI {
+		rt(opInt, 1, []string{cx.I(v)}, nil)
+		rt(opInt32, 1, []string{cx.I(int64(int32(v)))}, nil)
+	}
+	for _, e := range []uint{7, 14, 21} {
+		for _, d := range []int{-1, 0, 1} {
+			n := (1 << e) + d
+			rt(opBytes, 1, nil, []string{hex.EncodeToString(bytes.Repeat([]byte{0x5a}, n))})
+		}
+	}
+	for _, e := range []uint{7, 14} {
+		n := 1 << e
+		rt(opString, 1, nil, []string{hex.EncodeToString(bytes.Repeat([]byte{'q'}, n))})
+		rt(opBytesArray, 1, nil, []string{hex.EncodeToString(bytes.Repeat([]byte{1}, n)), hex.EncodeToString(bytes.Repeat([]byte{2}, n-1))})
+	}
+
 	// (c') payload sizes around the length-prefix boundaries: packed arrays of one- and two-byte elements, bytes, strings
 	sizes := append([]int{}, boundarySizes...)
 	if big {
